@@ -94,6 +94,11 @@ enum Load {
     /// even while producer 0 sits inside its append.  With today's lock span PROD_B just blocks (the scheduler reports it
     /// in flight after its step timeout and goes on; the case is then oracle-only); with a narrowed span it overtakes.
     MessagesTwo,
+    /// session, HOOK-FREE: the router on a multi-thread runtime, a `bash` tool printing `k` lines (k + 5 frames, so the
+    /// snapshot write at the end of the run takes a while), subscribers on their own OS threads attaching before the
+    /// run, in the middle of it, and in a tight loop from the moment the snapshot file appears (the window between the
+    /// last frame and the end of run_session).  No scheduler, no points: oracle only.
+    EndRace(u64),
 }
 impl Load {
     fn label(&self) -> String {
@@ -106,6 +111,7 @@ impl Load {
             Load::Messages(m) => format!("messages{m}"),
             Load::TwoProducers(k) => format!("twoproducers{k}"),
             Load::MessagesTwo => "messagestwo".into(),
+            Load::EndRace(k) => format!("endrace{k}"),
         }
     }
     fn to_json(&self) -> serde_json::Value {
@@ -118,6 +124,7 @@ impl Load {
             Load::Messages(m) => json!({"load": "messages", "k": m}),
             Load::TwoProducers(k) => json!({"load": "twoproducers", "k": k}),
             Load::MessagesTwo => json!({"load": "messagestwo"}),
+            Load::EndRace(k) => json!({"load": "endrace", "k": k}),
         }
     }
     fn from_json(v: &serde_json::Value) -> Option<Load> {
@@ -131,6 +138,7 @@ impl Load {
             "messages" => Load::Messages(k),
             "twoproducers" => Load::TwoProducers(k),
             "messagestwo" => Load::MessagesTwo,
+            "endrace" => Load::EndRace(k),
             _ => return None,
         })
     }
@@ -150,13 +158,24 @@ struct Case {
     /// each subscriber reads its body this many times WHILE the stream is being produced (scheduled like any other
     /// step: point `c06.read`), and once more after everything ended
     reads: usize,
+    /// thread kind: the actor LOSS deletes the (rebuildable) continuity sidecar cache while the store is alive, at the
+    /// place the schedule gives it: 1 = the whole directory data/continuity_streams, 2 = this thread's full sidecar file.
+    /// Only deletions (a well-formed stale PREFIX of the stream, the open finding of C04 / C05, is not reachable this way).
+    loss: usize,
+    /// grant a subscriber's snapshot step even when the harness believes the producer holds the history buffer's lock
+    /// (end of run_session / finalize_snapshot: the lock is held across the snapshot write).  On today's code the
+    /// subscriber blocks (in flight after the scheduler's step timeout), the producer finishes, the subscriber gets
+    /// the whole history; code that releases the buffer there lets the subscriber in.
+    probe: bool,
 }
 /// actor id of the foreign producer (subscribers are 1..=4)
 const OTHER: usize = 9;
+/// actor id of the cache-loss step (thread kind)
+const LOSS: usize = 7;
 /// actor id of the second producer of the SAME stream (Load::TwoProducers)
 const PROD_B: usize = 8;
 fn case_json(c: &Case) -> serde_json::Value {
-    json!({"kind": c.kind.name(), "load": c.load.to_json(), "subs": c.subs, "sched": c.sched, "others": c.others, "reads": c.reads})
+    json!({"kind": c.kind.name(), "load": c.load.to_json(), "subs": c.subs, "sched": c.sched, "others": c.others, "reads": c.reads, "loss": c.loss, "probe": c.probe})
 }
 fn case_from_json(v: &serde_json::Value) -> Option<Case> {
     let kind = match v.get("kind")?.as_str()? {
@@ -172,6 +191,8 @@ fn case_from_json(v: &serde_json::Value) -> Option<Case> {
         sched: v.get("sched")?.as_array()?.iter().filter_map(|x| x.as_u64().map(|y| y as usize)).collect(),
         others: v.get("others").and_then(|x| x.as_u64()).unwrap_or(0) as usize,
         reads: v.get("reads").and_then(|x| x.as_u64()).unwrap_or(0) as usize,
+        loss: v.get("loss").and_then(|x| x.as_u64()).unwrap_or(0) as usize,
+        probe: v.get("probe").and_then(|x| x.as_bool()).unwrap_or(false),
     })
 }
 
@@ -271,6 +292,8 @@ struct Ctl {
     multi: bool,
     /// Load::MessagesTwo: do not defer an actor parked at `cont.before_lock` to the believed holder of the mutex
     probe_locks: bool,
+    /// Case::probe
+    probe_buffer: bool,
     /// continuity seq mutex: who is between `cont.locked` and the return that follows `cont.advanced` / `cont.setnext`
     holder: Option<usize>,
     releasing: Option<usize>,
@@ -385,7 +408,7 @@ impl Ctl {
                     }
                 }
                 Some(p) => {
-                    if want != 0 && p == self.kind.sub_point() && self.guard && parked(0).is_some() {
+                    if want != 0 && p == self.kind.sub_point() && self.guard && !self.probe_buffer && parked(0).is_some() {
                         break 0; // snapshot would block on the buffer mutex: let the producer leave the critical section
                     }
                     if p == "log.before_lock" {
@@ -525,7 +548,7 @@ impl Env {
     fn key_of(c: &Case) -> String {
         // cases with a foreign producer get a fresh store each (uses limit below): the main thread is then short, so a
         // frame of another thread (seq 0, 1) that leaks through the handler is not hidden by the `seq > last` filter
-        format!("{:?}/{:?}/{}", c.kind, c.load, c.others > 0)
+        format!("{:?}/{:?}/{}/{}", c.kind, c.load, c.others > 0, c.loss > 0)
     }
     fn data(&self) -> PathBuf {
         self.scratch.path().join("data")
@@ -533,7 +556,7 @@ impl Env {
 }
 fn env_for<'a>(slot: &'a mut Option<Env>, c: &Case) -> &'a mut Env {
     let stale = match slot {
-        Some(e) => e.key != Env::key_of(c) || e.uses >= ENV_MAX_USES || c.others > 0 || matches!(c.load, Load::TwoProducers(_)),
+        Some(e) => e.key != Env::key_of(c) || e.uses >= ENV_MAX_USES || c.others > 0 || c.loss > 0 || matches!(c.load, Load::TwoProducers(_)),
         None => true,
     };
     if stale {
@@ -728,6 +751,20 @@ fn run_case(env: &mut Env, c: &Case) -> Outcome {
             });
         });
     }
+    // ---- cache loss: the rebuildable sidecar cache is deleted while the store is alive (one step, wherever the schedule puts it)
+    if c.kind == Kind::Thread && c.loss > 0 {
+        let sid = stream_id.clone();
+        let data = data.clone();
+        let whole_dir = c.loss == 1;
+        sched.spawn(LOSS, move || {
+            let dir = data.join("continuity_streams");
+            if whole_dir {
+                let _ = std::fs::remove_dir_all(&dir);
+            } else if let Some(id) = sid.lock().unwrap().clone() {
+                let _ = std::fs::remove_file(dir.join(format!("{id}.jsonl")));
+            }
+        });
+    }
     // ---- subscriber actors
     for i in 1..=c.subs {
         let app = app.clone();
@@ -762,7 +799,7 @@ fn run_case(env: &mut Env, c: &Case) -> Outcome {
     }
     drop(tx);
 
-    let ctl = std::cell::RefCell::new(Ctl { kind: c.kind, prefix: c.sched.clone(), pos: 0, prev: None, guard: false, multi: matches!(c.load, Load::TwoProducers(_)), probe_locks: c.load == Load::MessagesTwo, holder: None, releasing: None, log_holder: None, events: vec![], p_trace: vec![] });
+    let ctl = std::cell::RefCell::new(Ctl { kind: c.kind, prefix: c.sched.clone(), pos: 0, prev: None, guard: false, multi: matches!(c.load, Load::TwoProducers(_)), probe_locks: c.load == Load::MessagesTwo, probe_buffer: c.probe, holder: None, releasing: None, log_holder: None, events: vec![], p_trace: vec![] });
     let sid_probe = stream_id.clone();
     let probe = driver.clone();
     let sub_point = c.kind.sub_point();
@@ -831,6 +868,126 @@ fn run_case(env: &mut Env, c: &Case) -> Outcome {
         out.foreign.push(fo);
         out.marks.push(marks);
     }
+    out
+}
+
+/// HOOK-FREE end-of-run race (Load::EndRace): the real router on a multi-thread runtime, one long session, subscribers
+/// on their own OS threads attaching (0) before the input is sent, (1) in the middle of the run, (2..) back to back from
+/// the moment the snapshot file appears - i.e. while run_session is between its last frame and its end.  Bodies are read
+/// only after the run is known to be over (a later subscriber has received `session_ended` from the history), so every
+/// frame a correct server owes them is already queued: the idle waits below only ever elapse on a broken server.
+fn run_end_race(c: &Case, lines: u64) -> Outcome {
+    use std::sync::atomic::{AtomicBool, Ordering};
+    let mut out = Outcome::default();
+    let scratch = Scratch::new("c06race");
+    let data = scratch.path().join("data");
+    let ws = scratch.path().join("ws");
+    std::fs::create_dir_all(&ws).unwrap();
+    let app = ripd::verif::build_app(data.clone(), ws, None);
+    let main_rt = tokio::runtime::Builder::new_multi_thread().worker_threads(3).enable_all().build().expect("runtime");
+    let (st, v) = main_rt.block_on(call_json(&app, req("POST", "/sessions", None)));
+    assert_eq!(st, 201);
+    let id = v["session_id"].as_str().unwrap().to_string();
+    let snap = data.join("snapshots").join(format!("{id}.json"));
+    let log = data.join("events.jsonl");
+    let deadline = Instant::now() + Duration::from_secs(180);
+    let first_attached = Arc::new(AtomicBool::new(false));
+    let attachers = c.subs.max(3);
+    let per_late = 5usize;
+    let mut handles = vec![];
+    for j in 0..attachers {
+        let app = app.clone();
+        let id = id.clone();
+        let snap = snap.clone();
+        let log = log.clone();
+        let first_attached = first_attached.clone();
+        handles.push(std::thread::spawn(move || {
+            let rt = new_rt();
+            let uri = format!("/sessions/{id}/events");
+            let mut got: Vec<(u16, Option<Reader>)> = vec![];
+            let attach = |rt: &tokio::runtime::Runtime| {
+                let resp = rt.block_on(async { app.clone().oneshot(req("GET", &uri, None)).await.expect("infallible") });
+                let st = resp.status().as_u16();
+                (st, if st == 200 { Some(Reader::new(resp)) } else { None })
+            };
+            match j {
+                0 => {
+                    got.push(attach(&rt));
+                    first_attached.store(true, Ordering::SeqCst);
+                }
+                1 => {
+                    // about the middle of the run: the log has grown to half its final size (each tool_stdout line is > 150 bytes)
+                    while std::fs::metadata(&log).map(|m| m.len()).unwrap_or(0) < lines * 75 && !snap.exists() && Instant::now() < deadline {
+                        std::thread::yield_now();
+                    }
+                    got.push(attach(&rt));
+                }
+                _ => {
+                    while !snap.exists() && Instant::now() < deadline {
+                        std::hint::spin_loop();
+                    }
+                    for _ in 0..per_late {
+                        got.push(attach(&rt));
+                    }
+                }
+            }
+            (rt, got)
+        }));
+    }
+    while !first_attached.load(Ordering::SeqCst) && Instant::now() < deadline {
+        std::thread::sleep(Duration::from_millis(1));
+    }
+    let tool = json!({"tool": "bash", "args": {"command": format!("seq 1 {lines}")}}).to_string();
+    let (st, _) = main_rt.block_on(call_json(&app, req("POST", &format!("/sessions/{id}/input"), Some(json!({"input": tool})))));
+    assert_eq!(st, 202);
+    let mut all: Vec<(tokio::runtime::Runtime, Vec<(u16, Option<Reader>)>)> = vec![];
+    for h in handles {
+        if let Ok(x) = h.join() {
+            all.push(x);
+        } else {
+            out.panicked.push(0);
+        }
+    }
+    // the run is over once a subscriber that attaches now is handed `session_ended` by the history
+    let rt = new_rt();
+    let mut over = false;
+    while !over && Instant::now() < deadline {
+        if snap.exists() {
+            let resp = rt.block_on(async { app.clone().oneshot(req("GET", &format!("/sessions/{id}/events"), None)).await.expect("infallible") });
+            if resp.status().as_u16() == 200 {
+                let mut rd = Reader::new(resp);
+                rd.drain(&rt, 300, Kind::Session, None, &id);
+                over = rd.terminal;
+            }
+        }
+        if !over {
+            std::thread::sleep(Duration::from_millis(20));
+        }
+    }
+    // let the runtime finish the run task (append_run_ended etc.) before the store is read
+    std::thread::sleep(Duration::from_millis(50));
+    out.truth = stream_frames(&data, &id, false).into_iter().map(|(s, _)| s).collect();
+    out.complete = over && out.panicked.is_empty();
+    let last = out.truth.last().cloned();
+    for (art, got) in all {
+        for (st, rd) in got {
+            match rd {
+                Some(mut rd) => {
+                    // generous: elapses only when the server owes frames it will never send
+                    rd.drain(&art, 3000, Kind::Session, last, &id);
+                    out.delivered.push((st, rd.seqs));
+                    out.foreign.push(rd.foreign);
+                }
+                None => {
+                    out.delivered.push((st, vec![]));
+                    out.foreign.push(0);
+                }
+            }
+            out.marks.push(vec![]);
+        }
+        drop(art);
+    }
+    drop(main_rt);
     out
 }
 
@@ -954,7 +1111,18 @@ fn oracle(c: &Case, o: &Outcome, cap: usize) -> Option<(String, String)> {
                 "unexpected_frames"
             };
             return Some((
-                format!("{} stream, subscriber {}: received seqs {:?}, stream has 0..{} (missing {:?})", c.kind.name(), i + 1, seqs, n, missing),
+                format!(
+                    "{} stream, subscriber {}: received {} frames {:?}{}, stream has 0..{} ({} missing: {:?}{})",
+                    c.kind.name(),
+                    i + 1,
+                    seqs.len(),
+                    &seqs[..seqs.len().min(24)],
+                    if seqs.len() > 24 { " .." } else { "" },
+                    n,
+                    missing.len(),
+                    &missing[..missing.len().min(24)],
+                    if missing.len() > 24 { " .." } else { "" }
+                ),
                 class.into(),
             ));
         }
@@ -1036,7 +1204,7 @@ fn corpus(repo_root: &Path) -> Vec<Case> {
 
 /// the producer's point trace for a load (dry run without subscribers)
 fn producer_points(kind: Kind, load: &Load) -> Vec<&'static str> {
-    let c = Case { kind, load: load.clone(), subs: 0, sched: vec![], others: 0, reads: 0 };
+    let c = Case { kind, load: load.clone(), subs: 0, sched: vec![], others: 0, reads: 0, loss: 0, probe: false };
     let mut env = Env::new(&c);
     run_case(&mut env, &c).producer_trace
 }
@@ -1081,6 +1249,10 @@ fn main() {
     }
     let repo_root = a.repo();
     let mut r = Rng::new(a.seed);
+    // ---- hook-free: attach around the end of a long run on a multi-thread runtime
+    for k in if thorough { vec![6000u64, 3000, 1500] } else { vec![3000u64] } {
+        cases.push(Case { kind: Kind::Session, load: Load::EndRace(k), subs: 5, sched: vec![], others: 0, reads: 0, loss: 0, probe: false });
+    }
     // ---- two producers on one task stream (stdout pump / stderr pump): one emit = 9 points
     // (before_emit, seq_chosen, recorded, sent, log.before_lock, log.locked, log.body_written, log.nl_written, log.flushed)
     {
@@ -1095,7 +1267,7 @@ fn main() {
                 let mut s = vec![0; *a_];
                 s.extend(vec![PROD_B; *b_]);
                 s.extend([1, 1]);
-                cases.push(Case { kind, load: load.clone(), subs: 1, sched: s, others: 0, reads: 0 });
+                cases.push(Case { kind, load: load.clone(), subs: 1, sched: s, others: 0, reads: 0, loss: 0, probe: false });
                 // the subscriber is attached before both and reads as it goes
                 let mut s = vec![1, 1];
                 s.extend(vec![0; *a_]);
@@ -1103,7 +1275,7 @@ fn main() {
                 s.push(1);
                 s.extend(vec![0; 9]);
                 s.push(1);
-                cases.push(Case { kind, load: load.clone(), subs: 1, sched: s, others: 0, reads: 2 });
+                cases.push(Case { kind, load: load.clone(), subs: 1, sched: s, others: 0, reads: 2, loss: 0, probe: false });
             }
         }
         let n_rand = if thorough { 300 } else { 24 };
@@ -1118,7 +1290,7 @@ fn main() {
                     _ => r.range(1, subs as u64) as usize,
                 });
             }
-            cases.push(Case { kind, load: Load::TwoProducers(r.range(1, 3)), subs, sched: s, others: 0, reads: r.range(0, 2) as usize });
+            cases.push(Case { kind, load: Load::TwoProducers(r.range(1, 3)), subs, sched: s, others: 0, reads: r.range(0, 2) as usize, loss: 0, probe: false });
         }
     }
 
@@ -1150,7 +1322,7 @@ fn main() {
                 s.push(1);
                 s.extend(vec![0; d]);
                 s.push(1);
-                cases.push(Case { kind: *kind, load: load.clone(), subs: 1, sched: s, others: 0, reads: 0 });
+                cases.push(Case { kind: *kind, load: load.clone(), subs: 1, sched: s, others: 0, reads: 0, loss: 0, probe: false });
             }
         }
         // several concurrent subscribers, random interleavings
@@ -1163,7 +1335,7 @@ fn main() {
                 s.push(if r.chance(3, 5) { 0 } else { r.range(1, subs as u64) as usize });
             }
             let reads = r.range(0, 3) as usize;
-            cases.push(Case { kind: *kind, load: load.clone(), subs, sched: s, others: 0, reads });
+            cases.push(Case { kind: *kind, load: load.clone(), subs, sched: s, others: 0, reads, loss: 0, probe: false });
         }
         // a client that keeps reading while the stream is produced: attach at position a, then read after every
         // `stride` producer steps
@@ -1179,7 +1351,80 @@ fn main() {
                 s.extend(vec![0; stride]);
                 s.push(1);
             }
-            cases.push(Case { kind: *kind, load: load.clone(), subs: 1, sched: s, others: 0, reads });
+            cases.push(Case { kind: *kind, load: load.clone(), subs: 1, sched: s, others: 0, reads, loss: 0, probe: false });
+        }
+        // the END of the run: run_session / finalize_snapshot write the snapshot file from the history buffer after the last
+        // frame (points snap.created / snap.written / snap.flushed inside rip_log::write_snapshot).  A subscriber that
+        // attaches there is an "attach after the stream ended" subscriber and must get the whole history.
+        if *kind != Kind::Thread {
+            let at = |name: &str| trace.iter().position(|p| *p == name).map(|i| i + 1);
+            let last_pub = trace.iter().rposition(|p| *p == kind.pub_point()).map(|i| i + 1);
+            let mut ends: Vec<Vec<usize>> = vec![];
+            for name in ["snap.created", "snap.written"] {
+                if let Some(a_) = at(name) {
+                    let mut s = vec![0; a_];
+                    s.extend([1, 1]);
+                    ends.push(s);
+                }
+            }
+            if let (Some(a_), Some(b_)) = (last_pub, at("snap.flushed")) {
+                let mut s = vec![0; a_];
+                s.push(1);
+                s.extend(vec![0; b_ - a_]);
+                s.push(1);
+                ends.push(s);
+            }
+            if thorough {
+                if let (Some(a_), Some(b_)) = (at("snap.created"), at("snap.written")) {
+                    let mut s = vec![0; a_];
+                    s.push(1);
+                    s.extend(vec![0; b_ - a_]);
+                    s.push(1);
+                    ends.push(s);
+                }
+                if let Some(a_) = at("snap.flushed") {
+                    let mut s = vec![0; a_];
+                    s.extend([1, 1]);
+                    ends.push(s.clone());
+                    s.extend([2, 2]);
+                    ends.push(s);
+                }
+            }
+            res.notes.push(format!("{} {}: {} end-of-run attach cases (inside the snapshot write)", kind.name(), load.label(), ends.len()));
+            for s in ends {
+                let subs = s.iter().cloned().max().unwrap_or(1).max(1);
+                cases.push(Case { kind: *kind, load: load.clone(), subs, sched: s, others: 0, reads: 0, loss: 0, probe: true });
+            }
+        }
+        // thread kind: the sidecar cache (what replay_events, the handler's history source, prefers over the log) is LOST
+        // while the store is alive: deleted after `a` producer steps, the producer goes on for `d` steps (appends re-create
+        // the file holding only the newer frames), then the subscriber attaches (its whole handler in one go: its replay
+        // rebuilds the cache, and a rebuild racing with an append is C04's subject, not this one's)
+        if *kind == Kind::Thread {
+            let step = if thorough { 2 } else { 7 };
+            let ds: Vec<usize> = if thorough { vec![0, 1, 9, 25, 60, t + 1] } else { vec![0, 25, t + 1] };
+            let mut n_loss = 0;
+            for (ia, a_) in pos.iter().enumerate().step_by(step) {
+                for (id, d) in ds.iter().enumerate() {
+                    let mut s = vec![0; *a_];
+                    s.push(LOSS);
+                    s.extend(vec![0; *d]);
+                    s.push(1);
+                    cases.push(Case { kind: *kind, load: load.clone(), subs: 1, sched: s, others: 0, reads: 0, loss: 1 + (ia + id) % 2, probe: false });
+                    n_loss += 1;
+                }
+            }
+            // a subscriber attached before the loss keeps reading, a second one attaches after it
+            for a_ in pos.iter().step_by(step * 2) {
+                let mut s = vec![1, 1];
+                s.extend(vec![0; *a_]);
+                s.push(LOSS);
+                s.extend(vec![0; 30]);
+                s.push(2);
+                cases.push(Case { kind: *kind, load: load.clone(), subs: 2, sched: s, others: 0, reads: 0, loss: 1, probe: false });
+                n_loss += 1;
+            }
+            res.notes.push(format!("thread {}: {} cache-loss cases", load.label(), n_loss));
         }
         // thread kind: another thread's producer publishes on the shared continuity channel (the handler must drop
         // those frames; they sit in the receiver between the frames of this thread)
@@ -1191,7 +1436,7 @@ fn main() {
                 s.push(1);
                 s.extend(vec![OTHER; 80]);
                 s.push(1);
-                cases.push(Case { kind: *kind, load: load.clone(), subs: 1, sched: s, others: 1, reads: 0 });
+                cases.push(Case { kind: *kind, load: load.clone(), subs: 1, sched: s, others: 1, reads: 0, loss: 0, probe: false });
                 // one foreign thread before the attach, one inside the window, then the producer moves on before the snapshot
                 let mut s = vec![OTHER; 30];
                 s.extend(vec![0; *a_]);
@@ -1199,7 +1444,7 @@ fn main() {
                 s.extend(vec![OTHER; 80]);
                 s.extend(vec![0; 5]);
                 s.push(1);
-                cases.push(Case { kind: *kind, load: load.clone(), subs: 1, sched: s, others: 2, reads: 1 });
+                cases.push(Case { kind: *kind, load: load.clone(), subs: 1, sched: s, others: 2, reads: 1, loss: 0, probe: false });
             }
             for _ in 0..n_multi {
                 let subs = r.range(1, 3) as usize;
@@ -1212,7 +1457,7 @@ fn main() {
                         _ => r.range(1, subs as u64) as usize,
                     });
                 }
-                cases.push(Case { kind: *kind, load: load.clone(), subs, sched: s, others: r.range(1, 2) as usize, reads: r.range(0, 2) as usize });
+                cases.push(Case { kind: *kind, load: load.clone(), subs, sched: s, others: r.range(1, 2) as usize, reads: r.range(0, 2) as usize, loss: 0, probe: false });
             }
         }
     }
@@ -1225,7 +1470,7 @@ fn main() {
             let mut s = vec![0; a_];
             s.extend(vec![PROD_B; 45]);
             s.extend([1, 1]);
-            cases.push(Case { kind: Kind::Thread, load: Load::MessagesTwo, subs: 1, sched: s, others: 0, reads: 0 });
+            cases.push(Case { kind: Kind::Thread, load: Load::MessagesTwo, subs: 1, sched: s, others: 0, reads: 0, loss: 0, probe: false });
         }
     }
 
@@ -1243,7 +1488,10 @@ fn main() {
             res.notes.push(format!("time budget reached after {i} of {} cases", cases.len()));
             break;
         }
-        let got = {
+        let got = if let Load::EndRace(k) = c.load {
+            env_slot = None;
+            std::panic::catch_unwind(std::panic::AssertUnwindSafe(|| run_end_race(c, k)))
+        } else {
             let e = env_for(&mut env_slot, c);
             std::panic::catch_unwind(std::panic::AssertUnwindSafe(|| run_case(e, c)))
         };
@@ -1292,7 +1540,7 @@ fn main() {
             // shrink the schedule prefix while the same class keeps failing
             let base = c.clone();
             let cls = class.clone();
-            let sched = if c.sched.len() <= 60 && !class.starts_with("frames_skipped_after_lag") {
+            let sched = if c.sched.len() <= 60 && !class.starts_with("frames_skipped_after_lag") && !matches!(c.load, Load::EndRace(_)) {
                 shrink_vec(c.sched.clone(), |s| {
                     let mut cc = base.clone();
                     cc.sched = s.to_vec();
@@ -1312,7 +1560,10 @@ fn main() {
             res.oracle_violations.push(OracleViolation { case_id: i as i64, what, class, replay: case_json(&cc) });
         }
         if !a.oracle_only() {
-            if o.truth.len() > 4000 {
+            if matches!(c.load, Load::EndRace(_)) {
+                res.bump("not_compared_with_model(hook-free multi-thread run: no schedule observed)");
+                res.bump(&format!("end_race_attaches={}", o.delivered.len()));
+            } else if o.truth.len() > 4000 {
                 // the lag witness: a stream longer than the channel capacity; the Coq side of this is c06_lag_refuted
                 // (vm_compute over an 18 000-frame schedule is out of budget)
                 res.bump("not_compared_with_model(stream longer than 4000 frames)");
